@@ -239,4 +239,28 @@ PROPS['C09'] = {
     'design_ref': 'DESIGN.md section 5 C09',
 }
 
+PROPS['C13'] = {
+    'modules': ['contracts.fs_format', 'contracts.fs_load', 'contracts.blobmodel', 'contracts.fs_write',
+                'contracts.blobspecs'],
+    'lemmas': [],
+    'level': 'proof',
+    'bounded': [
+        {'func': 'ZODB.blob:<blob-storages><commit-abort-undo-pack>',
+         'bound': 'FileStorage+blob_dir and BlobStorage(MappingStorage): storeBlob then abort before vote / after vote / '
+                  'finish; foreign-transaction abort with a blob in flight; DB level on FileStorage: create, rewrite, '
+                  'undo aborted after vote, undo committed, rewrite, pack (keep_old on/off): set of *.blob files == set '
+                  'of committed blob records and bytes read back'},
+    ],
+    'text': 'Over a ghost blob namespace (oid, tid) -> file: _blob_storeblob proved to put exactly one file in place '
+            'under (oid, tid), consume the working file and list the pair as dirty; _blob_tpc_abort proved (loop '
+            'invariant) to remove exactly the dirty files and empty the list; FileStorage._abort / BaseStorage.tpc_abort '
+            'proved to do so in EVERY phase (also before the vote); _finish_finish proved to forget the list and keep '
+            'the files; the BlobStorage wrapper proved to clean up only for the transaction in progress and to be '
+            'without effect for a foreign one.',
+    'note': 'Assumes A-BLOBFS (namespace model of the blob directory, injective file names). Blob handling inside '
+            'undo (_txn_undo_write, BlobStorage.undo), pack (copyDataRecords blob branch, _packUndoing/_packNonUndoing) '
+            'and Blob objects (consumeFile, _uncommitted) is covered by the bounded harness only.',
+    'design_ref': 'DESIGN.md section 5 C13',
+}
+
 NOT_YET = {}
